@@ -246,6 +246,30 @@ def shared_rule_scenario(ctx, viol, stats):
             pr.destroy()
 
 
+def latin1_script_scenario(ctx, viol, stats):
+    """The chosen script is run whatever bytes it contains: a .do file whose first line is not valid UTF-8 (a comment in
+    Latin-1) is an ordinary sh script; one whose first line is `#!/…` with such bytes further on is still started through
+    the named interpreter."""
+    from proj import Project
+    pr = Project()
+    try:
+        pr.write("t.do", b"# caf\xe9 au lait\necho ok\n")
+        pr.write("u.do", b"#!/bin/sh\n# caf\xe9\necho \"via $0\" >\"$3\"\n")
+        problems = []
+        for t, want in (("t", b"ok\n"), ("u", None)):
+            rc, o, e = pr.run(["redo", t])
+            stats["latin1"] = stats.get("latin1", 0) + 1
+            got = pr.read(t)
+            if rc != 0 or (want is not None and got != want) or got is None:
+                problems.append("`redo %s` exited %d, %s holds %r (%s)" % (t, rc, t, got, (e.strip().splitlines() or [""])[-1][:120]))
+        if problems:
+            p = write_replay("C13", "latin1-script", dict(kind="impl-monitor", clause="the script used for a target is the first existing candidate — whatever bytes it contains", problems=problems,
+                                                          scenario="t.do: '# caf\\xe9 au lait\\necho ok' (first line not UTF-8); u.do: '#!/bin/sh' then a Latin-1 comment"))
+            viol.append(Violation("C13", p, "a .do file with bytes that are not UTF-8 is not run: " + "; ".join(problems)))
+    finally:
+        pr.destroy()
+
+
 def run(ctx):
     rng = random.Random(ctx["seed"])
     thorough = ctx["tier"] == "thorough"
@@ -286,6 +310,8 @@ def run(ctx):
             symlink_level(ctx, viol, stats)
         if not viol:
             shared_rule_scenario(ctx, viol, stats)
+        if not viol:
+            latin1_script_scenario(ctx, viol, stats)
     ncand = sum(len(parse_cands(x) or []) for x in impl)
     return dict(evaluations=len(lines) + stats["placements"] * 2 + stats["reselect"] * 2,
                 distinct_nontrivial=len(set(l for l, r in zip(lines, impl) if r != "none" and r.count(",") >= 2)),
